@@ -195,10 +195,12 @@ func doRangeCheckForCol(segMicroIndex *metadata.SegmentMicroIndex, blockToCheck 
 			continue
 		}
 		if colCMI.CmiType != sutils.CMI_RANGE_INDEX[0] {
-			if rangeOp == sutils.NotEquals {
-				matchedBlockRange = true
-				timeFilteredBlocks[blockToCheck][colName] = true
-			}
+			// The column holds strings in this block (it has a bloom, not a
+			// range index). They may be numbers written as strings - also the
+			// numbers of a block whose column was consolidated to strings - so
+			// the block cannot be excluded for a numeric comparison.
+			matchedBlockRange = true
+			timeFilteredBlocks[blockToCheck][colName] = true
 			continue
 		}
 		matchedBlockRange = metautils.CheckRangeIndex(rangeFilter, colCMI.Ranges, rangeOp, qid)
